@@ -24,7 +24,7 @@ type C12Case struct {
 	Runs   int          `json:"runs"`
 }
 
-const c12Rule = "packages biased towards many entries in every map yardl ranges over (8-14 definitions, unions of several arities, 1-3 previous versions each with several changed definitions, or several simultaneous errors in different files) x N fresh CLI processes (N=5 quick, 12 thorough) on the same directory; oracle: identical exit status, identical stderr/stdout, identical sha256 of every output file (C++ incl. HDF5 sources, Python, MATLAB, JSON), and one more run into the populated tree leaves every mtime unchanged; non-trivial = at least 2 versions with changes, or at least 3 diagnostics, or at least 3 unions of different arity; distinct = hash of files"
+const c12Rule = "packages biased towards many entries in every map yardl ranges over (8-14 definitions, unions of several arities, 1-3 previous versions each with several changed definitions, two thirds of them with an alias that no version changes inside a step union that gains a case, or several simultaneous errors in different files) x N fresh CLI processes (N=8 quick, 20 thorough) on the same directory; oracle: identical exit status, identical stderr/stdout, identical sha256 of every output file (C++ incl. HDF5 sources, Python, MATLAB, JSON), and one more run into the populated tree leaves every mtime unchanged; non-trivial = at least 2 versions with changes, or at least 3 diagnostics, or at least 3 unions of different arity; distinct = hash of files"
 
 const c12Outputs = "cpp:\n  sourcesOutputDir: ../out/cpp\npython:\n  outputDir: ../out/py\nmatlab:\n  outputDir: ../out/m\njson:\n  outputDir: ../out/json\n"
 
@@ -33,12 +33,43 @@ func genC12(t *rapid.T) C12Case {
 	cfg.MaxDefs = 14
 	cfg.MaxProtocols = 3
 	cfg.MaxSteps = 8
-	c := C12Case{Runs: core.Budget(5, 12)}
+	c := C12Case{Runs: core.Budget(8, 20)}
 	root := model.GenPackage(t, &cfg)
 	kind := rapid.SampledFrom([]string{"valid", "valid-versions", "valid-versions", "invalid-multi", "invalid-multi"}).Draw(t, "kind")
 	c.Kind = kind
 	switch kind {
 	case "valid-versions":
+		// an alias that no version changes, used by a step whose type does change between versions (a union that
+		// gains a case): the change records of unchanged definitions are then consulted by the generators
+		var stable *model.Def
+		if rapid.IntRange(0, 2).Draw(t, "stableAlias") != 0 {
+			for _, d := range root.Defs {
+				if d.Kind == model.DRecord && len(d.TypeParams) == 0 && root.Find("StableAlias") == nil {
+					stable = &model.Def{Kind: model.DAlias, Name: "StableAlias", Type: model.Ref(root.Namespace, d.Name), File: d.File}
+					break
+				}
+			}
+		}
+		if stable != nil {
+			var defs []*model.Def
+			done := false
+			for _, d := range root.Defs {
+				if d.Kind == model.DProtocol && !done {
+					defs = append(defs, stable)
+					done = true
+				}
+				defs = append(defs, d)
+			}
+			root.Defs = defs
+		}
+		uni := func(withFloat bool) *model.Type {
+			u := &model.Type{Kind: model.KUnion, Cases: []*model.Type{model.Ref(root.Namespace, "StableAlias"), model.Prim("int32")}, Tags: []string{"StableAlias", "int32"}}
+			if withFloat {
+				u.Cases = append(u.Cases, model.Prim("float32"))
+				u.Tags = append(u.Tags, "float32")
+			}
+			return u
+		}
 		nv := rapid.IntRange(1, 3).Draw(t, "nv")
 		for i := 0; i < nv; i++ {
 			v := root.Clone()
@@ -55,7 +86,17 @@ func genC12(t *rapid.T) C12Case {
 						Fields: []model.Field{{Name: "x", Type: model.Prim("int32")}, {Name: "s", Type: model.Stream(model.Prim("string"))}}})
 				}
 			}
+			if stable != nil {
+				if p0 := v.Protocols(); len(p0) > 0 {
+					p0[0].Fields = append(p0[0].Fields, model.Field{Name: "stableChoice", Type: uni(false)})
+				}
+			}
 			root.Versions = append(root.Versions, model.Version{Label: fmt.Sprintf("v%d", i), Pkg: v})
+		}
+		if stable != nil {
+			if p0 := root.Protocols(); len(p0) > 0 {
+				p0[0].Fields = append(p0[0].Fields, model.Field{Name: "stableChoice", Type: uni(true)})
+			}
 		}
 	case "invalid-multi":
 		// several independent errors in different definitions/files
